@@ -101,6 +101,7 @@ def roots(tier, seed):
         for p in range(len(PATS)):
             out.append({"part": "broadcast", "kind": kind, "p": p})
     out.append({"part": "nancoef"})
+    out.append({"part": "aliased"})
     # sequences of objects through minimize
     nmax = 2 if tier == "quick" else 3
     for nl in range(nmax + 1):
@@ -277,6 +278,44 @@ def check_nancoef(stats, viol):
             return
 
 
+def check_aliased(stats, viol):
+    """lb and ub given as one and the same array object (equalities), with a NaN entry switching a component off."""
+    for kind in ("nl", "lin"):
+        for template in ([A_, NAN, B_], [NAN, A_], [B_, B_, NAN]):
+            k = len(template)
+            b = np.array(template, float)
+            keep = b.copy()
+            _, _, comps = expected(b, b, kind == "lin")
+            if kind == "nl":
+                cons = NonlinearConstraint(lambda x: np.array(x, float), b, b)
+            else:
+                cons = LinearConstraint(np.eye(k), b, b)
+            for v in itertools.product(VALS[1:4], repeat=k):
+                x0 = np.array(v, float)
+                with warnings.catch_warnings():
+                    warnings.simplefilter("ignore")
+                    with np.errstate(all="ignore"):
+                        try:
+                            res = cobyqa.minimize(lambda x: 0.0, x0, constraints=cons, options={"maxfev": 1})
+                        except Exception as e:  # noqa
+                            viol.setdefault("aliased-exception", {"key": "aliased-exception", "case": {"part": "aliased"},
+                                                                  "what": f"{type(e).__name__}: {e}"})
+                            return
+                ex, slack = excess(comps, v)
+                stats["aliased_runs"] = stats.get("aliased_runs", 0) + 1
+                if not (abs(float(res.maxcv) - ex) <= slack + 4e-16 * max(1.0, abs(ex))):
+                    viol.setdefault(f"aliased-limits:{kind}", {
+                        "key": f"aliased-limits:{kind}", "case": {"part": "aliased", "kind": kind, "v": list(v)},
+                        "what": f"{kind} constraint with lb and ub the same array {template}: res.maxcv={res.maxcv} "
+                                f"at values {list(v)}, interval excess {ex}"})
+                    return
+            if not np.array_equal(b, keep, equal_nan=True):
+                viol.setdefault("aliased-limits-mutated", {
+                    "key": "aliased-limits-mutated", "case": {"part": "aliased", "kind": kind},
+                    "what": f"the caller's limit array {template} was modified to {b.tolist()}"})
+                return
+
+
 def run_case(root):
     stats = {}
     viol = {}
@@ -297,13 +336,15 @@ def run_case(root):
         check_broadcast(root["kind"], root["p"], stats, viol)
     elif part == "nancoef":
         check_nancoef(stats, viol)
+    elif part == "aliased":
+        check_aliased(stats, viol)
     return {"viol": list(viol.values()), "stats": stats}
 
 
 def coverage(agg, tier, roots_):
     s = agg.stats
     herr = [f"non-vacuity counter {k} is zero" for k in
-            ("configs", "evals", "positive_excess", "seq_runs", "broadcast_runs", "nancoef") if not s.get(k)]
+            ("configs", "evals", "positive_excess", "seq_runs", "broadcast_runs", "nancoef", "aliased_runs") if not s.get(k)]
     total = int(s.get("evals", 0) + s.get("seq_runs", 0) + s.get("broadcast_runs", 0))
     cov = {"evaluations": total, "distinct_nontrivial": int(s.get("positive_excess", 0)), "rule": RULE,
            "exhaustive": True, "roots": len(roots_), "limit_configurations": int(s.get("configs", 0)),
